@@ -360,7 +360,7 @@ class Simulator(EventProducer, SimulatorInterface, Generic[TIME]):
         if not (self._replication_state == ReplicationState.INITIALIZED \
                 or self.replication_state == ReplicationState.STARTED):
             raise DSOLError("replication state not INITIALIZED or STARTED")
-        if self._simulator_time >= self._replication.end_sim_time:
+        if self._simulator_time > self._replication.end_sim_time:
             raise DSOLError("cannot start: simulator_time > run length")
         if not run_until_time >= self._simulator_time:
             raise DSOLError("cannot run up to a time in the past")
@@ -416,7 +416,7 @@ class Simulator(EventProducer, SimulatorInterface, Generic[TIME]):
         if (self._replication_state != ReplicationState.INITIALIZED \
                 and self.replication_state != ReplicationState.STARTED):
             raise DSOLError("replication state not INITIALIZED or STARTED")
-        if self._simulator_time >= self._replication.end_sim_time:
+        if self._simulator_time > self._replication.end_sim_time:
             raise DSOLError("cannot start: simulator_time > run length")
         try:
             if self._replication_state == ReplicationState.INITIALIZED:
